@@ -583,7 +583,8 @@ class C15(Base):
     def plan(self, rng, tier, idx):
         nmax, rfmax = self.SIZES[tier]
         lo, hi = self.SLOTS[tier]
-        e3 = rng.random() < self.E3_SHARE[tier]
+        share = float(os.environ.get("VERIF_E3_SHARE") or self.E3_SHARE[tier])
+        e3 = rng.random() < share
         nslots = rng.randint(lo, hi if (rng.random() < 0.2 and not e3)
                              else min(hi, 6))
         slots = []
